@@ -7,6 +7,8 @@ the source semantics the compiled circuits are compared with:
 
 * `C13_visits`: the loop visits, in the order of `a`, exactly those elements `x` of `a` for which
   `b` has an element with an equal key, each once, paired with that element of `b`;
+* `C13_visits_in_order`, `C13_ascending`: the visited elements are a sub-sequence of `a`: for sorted input the body
+  runs in ascending key order;
 * `C13_partner_sound`, `C13_partner_complete`: the partner has an equal key and is an element of
   `b`; if no partner is found no element of `b` has that key;
 * `C13_partner_unique`: when the keys of `b` are pairwise different (strictly sorted input) the
@@ -34,6 +36,24 @@ theorem C13_visits : ∀ (xs ys : ValList),
     | some y =>
       simp only [Option.map_some, ValList.toList, pairOf]
       rw [C13_visits r ys]
+
+/-- **in ascending key order**: the elements of `a` the loop visits are a sub-sequence of `a` — the loop never
+reorders or repeats them, so for an array sorted by key the body runs in ascending key order -/
+theorem C13_visits_in_order : ∀ (xs ys : ValList),
+    ((joinPairs xs ys).toList.map joinKey).Sublist xs.toList
+  | .nil, _ => by simp [joinPairs, ValList.toList]
+  | .cons x r, ys => by
+    simp only [joinPairs]
+    cases h : findByKey (joinKey x) ys with
+    | none => exact (C13_visits_in_order r ys).cons x
+    | some y =>
+      simp only [ValList.toList, List.map_cons, joinKey]
+      exact (C13_visits_in_order r ys).cons_cons x
+
+/-- so any order the keys of `a` are in (strictly ascending, for sorted input) is the order of the visits -/
+theorem C13_ascending (R : Val → Val → Prop) (xs ys : ValList) (h : xs.toList.Pairwise R) :
+    ((joinPairs xs ys).toList.map joinKey).Pairwise R :=
+  h.sublist (C13_visits_in_order xs ys)
 
 theorem C13_partner_sound : ∀ (k : Val) (ys : ValList) (y : Val), findByKey k ys = some y →
     y ∈ ys.toList ∧ Val.beq (joinKey y) k = true
